@@ -258,6 +258,100 @@ Definition restore_run (fx : bool) (fs : fstate) (r : run) : run :=
 
 Definition sk_is_defer (k : skind) : bool := match k with SkDefer => true | SkCont => false end.
 
+(* ---- one statement, without the recursion into callees ---- *)
+Inductive sres :=
+| RCont (k : skind) (fs1 : fstate) (ip i : nat) (g : glob)    (* completed; the frame goes on at ip with counter i *)
+| RPanic (v : nat) (g : glob)                                 (* the statement panicked *)
+| RCall (f i0 : nat)                                          (* call of an interpreted function, then RCont at ip+1 *)
+| RLeave (g : glob)                                           (* return statement / end of code *)
+| RStuck.                                                     (* defer statement outside execWithFlags: unreachable *)
+
+Definition exec_instr (fs : fstate) (ins : option instr) (g : glob) : sres :=
+  let ip := fs_ip fs in
+  let i := fs_i fs in
+  match ins with
+  | None => RLeave (upd_run (set_sync SReturn) g)          (* the appended spinInterrupt: Sync = SigReturn *)
+  | Some IHook =>
+      match hook_call g with
+      | (Some v, g1) => RPanic v g1
+      | (None, g1) => RCont SkCont fs (S ip) i g1
+      end
+  | Some IInc => RCont SkCont fs (S ip) (S i) g
+  | Some (ISet n) => RCont SkCont fs (S ip) n g
+  | Some IGInc => RCont SkCont fs (S ip) i (bump_x g)
+  | Some IPlain => RCont SkCont fs (S ip) i g
+  | Some (IJmp t) => RCont SkCont fs t i g
+  | Some (IIfMod m r t) => RCont SkCont fs (if Nat.modulo i m =? r then S ip else t) i g
+  | Some (IIfLt n t) => RCont SkCont fs (if i <? n then S ip else t) i g
+  | Some (IIfPos t) => RCont SkCont fs (if 0 <? i then S ip else t) i g
+  | Some (ICall f a) => RCall f (apply_arg a i)
+  | Some (IDefer d) =>
+      let di := match d with DHook => DIHook | DFun f a => DIFun f (apply_arg a i) end in
+      if fs_flags fs then RCont SkDefer (fs_push fs di) (S ip) i (upd_run (set_sync SDefer) g)
+      else RStuck     (* Code.WithDefers selects execWithFlags *)
+  | Some IRecover =>
+      let '(b, r) := call_recover (rn g) in
+      RCont SkCont fs (S ip) i (upd_run (fun _ => r) (if b then bump_recs g else g))
+  | Some IPanic => RPanic PV_INTERP g
+  | Some IRet => RLeave (upd_run (set_sync SReturn) g)
+  end.
+
+(* ---- what the loop does after a completed statement ---- *)
+Inductive cres :=
+| CGo (fs' : fstate) (g : glob)                 (* next statement *)
+| CIntrFlags (fs2 : fstate) (g : glob)          (* reExecWithFlags, signal: panic(SigInterrupt); fs2 holds the installed defers *)
+| CIntrPlain (g : glob).                        (* exec, finish: panic(SigInterrupt) *)
+
+(* a0 = Async was already set when the statement started *)
+Definition after_stmt (a0 : bool) (fs : fstate) (k : skind) (fs1 : fstate) (ip i : nat) (g : glob) : cres :=
+  let g1 := if a0 then bump_after (sk_is_defer k) g else g in
+  let '(ph, poll) := advance (fs_ph fs1) k in
+  if poll && async (rn g1) then
+    if fs_flags fs then
+      (* prologue: the defer statement returned nil, `defer rundefer(fun)` is executed, then `goto signal`.
+         steady loop: the spinInterrupt slots that follow the defer statement see Async and panic BEFORE the
+         installation loop runs: the deferred call is lost and Run.InstallDefer / Signals.Sync stay set *)
+      let fs2 := if intr_of (fs_ph fs) then fs else fs1 in
+      let g2 := if intr_of (fs_ph fs) then g1 else upd_run (set_sync SNone) g1 in
+      CIntrFlags fs2 (apply_async g2)
+    else CIntrPlain (apply_async (upd_run (set_intr (fs_sv_intr fs)) g1))
+  else CGo (fs_step fs1 ip i ph) (upd_run (fun r => set_sync SNone (set_intr (intr_of ph) r)) g1).
+
+(* exec, finish: run.Interrupt = saveInterrupt; async?; Signals.Sync = SigNone *)
+Definition leave_plain (fs : fstate) (g : glob) : outcome * glob :=
+  let g1 := upd_run (set_intr (fs_sv_intr fs)) g in
+  if async (rn g1) then (OPanic PV_INTERRUPT, apply_async g1)
+  else (ONormal, upd_run (set_sync SNone) g1).
+
+(* Interp.Eval of a statement counts it when the flag was set before it started *)
+Definition count_ret (a0 : bool) (ins : option instr) (g : glob) : glob :=
+  match ins with Some IRet => if a0 then bump_after false g else g | _ => g end.
+
+(* entry of the closure returned by exec / execWithFlags: Left = panic(SigInterrupt) before anything is saved *)
+Definition enter_frame (c : code) (f env i0 : nat) (g : glob) : (outcome * glob) + (fstate * glob) :=
+  let g1 := upd_run (set_sync SNone) g in
+  let r := rn g1 in
+  let flags := with_defers c || ef_start r || ef_defer r || ef_debug r in    (* execWithFlags, or ExecFlags != 0 *)
+  if async r then inl (OPanic PV_INTERRUPT, apply_async g1)
+  else if flags then
+    inr (mkFs f env 0 i0 ph0 true [] (ef_defer r) (intr r) (curr r),
+         upd_run (fun r => set_intr false (set_ef_debug (dbgsig r) (set_ef_start false (set_ef_defer (ef_start r) r)))) g1)
+  else
+    inr (mkFs f env 0 i0 ph0 false [] (ef_defer r) (intr r) (curr r), upd_run (set_intr false) g1).
+
+(* rundefer(fun) up to the call of fun: recover(), pushDefer *)
+Definition rundefer_pre (fs : fstate) (pk pk2 : bool) (gp : option nat) (g : glob) : bool * glob :=
+  let rec := pk || pk2 in
+  let pk1 := if rec then true else pk in
+  let g1 := if rec then upd_run (set_panicv gp) g else g in        (* run.Panic = recover() *)
+  (pk1, upd_run (fun r => set_ef_start true (set_defer_of (Some (fs_env fs)) (if pk1 then set_panic_fun (Some (fs_env fs)) r else r))) g1).
+
+(* the last deferred function of reExecWithFlags: restore(...) *)
+Definition do_restore (fx : bool) (fs : fstate) (gp : option nat) (g : glob) : outcome * glob :=
+  let g1 := upd_run (restore_run fx fs) g in
+  if async (rn g1) then (OPanic PV_INTERRUPT, apply_async g1)
+  else match gp with Some v => (OPanic v, g1) | None => (ONormal, g1) end.
+
 Fixpoint go (fuel : nat) (P : prog) (fx : bool) (t : task) (g : glob) : outcome * glob :=
   match fuel with
   | O => (OFuel, g)
@@ -277,122 +371,69 @@ Fixpoint go (fuel : nat) (P : prog) (fx : bool) (t : task) (g : glob) : outcome 
             end
         end
     | TEnter f env i0 =>
-        let c := nth f P [] in
-        let g1 := upd_run (set_sync SNone) g in
-        let r := rn g1 in
-        let flags := with_defers c || ef_start r || ef_defer r || ef_debug r in    (* execWithFlags, or ExecFlags != 0 *)
-        if async r then (OPanic PV_INTERRUPT, apply_async g1)           (* before anything is saved or deferred *)
-        else if flags then
-          let fs := mkFs f env 0 i0 ph0 true [] (ef_defer r) (intr r) (curr r) in
-          let g2 := upd_run (fun r => set_intr false (set_ef_debug (dbgsig r) (set_ef_start false (set_ef_defer (ef_start r) r)))) g1 in
-          go fuel' P fx (TLoop fs) g2
-        else
-          let fs := mkFs f env 0 i0 ph0 false [] (ef_defer r) (intr r) (curr r) in
-          go fuel' P fx (TLoop fs) (upd_run (set_intr false) g1)
+        match enter_frame (nth f P []) f env i0 g with
+        | inl res => res
+        | inr (fs, g1) => go fuel' P fx (TLoop fs) g1
+        end
     | TLoop fs =>
-        let c := nth (fs_fn fs) P [] in
         let a0 := async (rn g) in            (* was the flag already set when this statement started? *)
-        (* leave the loop: the frame ends normally (return statement or end of code) *)
-        let leave (g : glob) : outcome * glob :=
-          if fs_flags fs then
-            (* signal: *)
-            if async (rn g) then go fuel' P fx (TDefers fs (fs_defers fs) true false (Some PV_INTERRUPT)) (apply_async g)
-            else go fuel' P fx (TDefers fs (fs_defers fs) false false None) g
-          else
-            (* finish: run.Interrupt = saveInterrupt; async?; Signals.Sync = SigNone *)
-            let g1 := upd_run (set_intr (fs_sv_intr fs)) g in
-            if async (rn g1) then (OPanic PV_INTERRUPT, apply_async g1)
-            else (ONormal, upd_run (set_sync SNone) g1) in
+        let ins := nth_error (nth (fs_fn fs) P []) (fs_ip fs) in
         (* a statement of this frame panicked with v *)
         let stmt_panic (v : nat) (g : glob) : outcome * glob :=
           if fs_flags fs then go fuel' P fx (TDefers fs (fs_defers fs) true false (Some v)) g
           else (OPanic v, g) in
-        (* a statement completed and the frame goes on at ip with counter i *)
-        let continue (k : skind) (fs1 : fstate) (ip i : nat) (g : glob) : outcome * glob :=
-          let g1 := if a0 then bump_after (sk_is_defer k) g else g in
-          let '(ph, poll) := advance (fs_ph fs1) k in
-          if poll && async (rn g1) then
-            if fs_flags fs then
-              (* prologue: the defer statement returned nil, `defer rundefer(fun)` is executed, then `goto signal`.
-                 steady loop: the spinInterrupt slots that follow the defer statement see Async and panic BEFORE the
-                 installation loop runs: the deferred call is lost and Run.InstallDefer / Signals.Sync stay set *)
-              let fs2 := if intr_of (fs_ph fs) then fs else fs1 in
-              let g2 := if intr_of (fs_ph fs) then g1 else upd_run (set_sync SNone) g1 in
-              go fuel' P fx (TDefers fs2 (fs_defers fs2) true false (Some PV_INTERRUPT)) (apply_async g2)
-            else (OPanic PV_INTERRUPT, apply_async (upd_run (set_intr (fs_sv_intr fs)) g1))
-          else go fuel' P fx (TLoop (fs_step fs1 ip i ph)) (upd_run (fun r => set_sync SNone (set_intr (intr_of ph) r)) g1) in
-        let ip := fs_ip fs in
-        let i := fs_i fs in
-        match nth_error c ip with
-        | None => leave (upd_run (set_sync SReturn) g)         (* the appended spinInterrupt: Sync = SigReturn *)
-        | Some ins =>
-            match ins with
-            | IHook =>
-                match hook_call g with
-                | (Some v, g1) => stmt_panic v g1
-                | (None, g1) => continue SkCont fs (S ip) i g1
-                end
-            | IInc => continue SkCont fs (S ip) (S i) g
-            | ISet n => continue SkCont fs (S ip) n g
-            | IGInc => continue SkCont fs (S ip) i (bump_x g)
-            | IPlain => continue SkCont fs (S ip) i g
-            | IJmp t => continue SkCont fs t i g
-            | IIfMod m r t => continue SkCont fs (if Nat.modulo i m =? r then S ip else t) i g
-            | IIfLt n t => continue SkCont fs (if i <? n then S ip else t) i g
-            | IIfPos t => continue SkCont fs (if 0 <? i then S ip else t) i g
-            | ICall f a =>
-                let '(o, g1) := go fuel' P fx (TCallF f (apply_arg a i)) g in
-                match o with
-                | ONormal => continue SkCont fs (S ip) i g1
-                | OPanic v => stmt_panic v g1
-                | OFuel => (OFuel, g1)
-                end
-            | IDefer d =>
-                let di := match d with DHook => DIHook | DFun f a => DIFun f (apply_arg a i) end in
-                if fs_flags fs then continue SkDefer (fs_push fs di) (S ip) i (upd_run (set_sync SDefer) g)
-                else (OFuel, g)     (* unreachable: Code.WithDefers selects execWithFlags *)
-            | IRecover =>
-                let '(b, r) := call_recover (rn g) in
-                continue SkCont fs (S ip) i (upd_run (fun _ => r) (if b then bump_recs g else g))
-            | IPanic => stmt_panic PV_INTERP g
-            | IRet => let g1 := if a0 then bump_after false g else g in leave (upd_run (set_sync SReturn) g1)
+        let continue (c : cres) : outcome * glob :=
+          match c with
+          | CGo fs' g' => go fuel' P fx (TLoop fs') g'
+          | CIntrFlags fs2 g' => go fuel' P fx (TDefers fs2 (fs_defers fs2) true false (Some PV_INTERRUPT)) g'
+          | CIntrPlain g' => (OPanic PV_INTERRUPT, g')
+          end in
+        match exec_instr fs ins g with
+        | RCont k fs1 ip i g1 => continue (after_stmt a0 fs k fs1 ip i g1)
+        | RPanic v g1 => stmt_panic v g1
+        | RCall f i0 =>
+            let '(o, g1) := go fuel' P fx (TCallF f i0) g in
+            match o with
+            | ONormal => continue (after_stmt a0 fs SkCont fs (S (fs_ip fs)) (fs_i fs) g1)
+            | OPanic v => stmt_panic v g1
+            | OFuel => (OFuel, g1)
             end
+        | RLeave g0 =>
+            let g1 := count_ret a0 ins g0 in
+            if fs_flags fs then
+              (* signal: *)
+              if async (rn g1) then go fuel' P fx (TDefers fs (fs_defers fs) true false (Some PV_INTERRUPT)) (apply_async g1)
+              else go fuel' P fx (TDefers fs (fs_defers fs) false false None) g1
+            else leave_plain fs g1
+        | RStuck => (OFuel, g)
         end
     | TDefers fs ds pk pk2 gp =>
         match ds with
-        | [] =>
-            (* restore(...) *)
-            let g1 := upd_run (restore_run fx fs) g in
-            if async (rn g1) then (OPanic PV_INTERRUPT, apply_async g1)
-            else match gp with Some v => (OPanic v, g1) | None => (ONormal, g1) end
+        | [] => do_restore fx fs gp g
         | d :: ds' =>
             (* rundefer(fun) *)
-            let rec := pk || pk2 in
-            let pk1 := if rec then true else pk in
-            let g1 := if rec then upd_run (set_panicv gp) g else g in        (* run.Panic = recover() *)
-            (* pushDefer(run, funenv, panicking) *)
-            let saved_dof := defer_of (rn g1) in
-            let saved_isdefer := ef_defer (rn g1) in
-            let g2 := upd_run (fun r => set_ef_start true (set_defer_of (Some (fs_env fs)) (if pk1 then set_panic_fun (Some (fs_env fs)) r else r))) g1 in
+            let saved_dof := defer_of (rn g) in
+            let saved_isdefer := ef_defer (rn g) in
+            let '(pk1, g2) := rundefer_pre fs pk pk2 gp g in
             (* fun() *)
             let '(o, g3) := match d with
                             | DIHook => match hook_call g2 with (Some v, g') => (OPanic v, g') | (None, g') => (ONormal, g') end
                             | DIFun f i0 => go fuel' P fx (TCallF f i0) g2
                             end in
+            let g4 := upd_run (pop_defer saved_dof saved_isdefer) g3 in     (* deferred popDefer *)
             match o with
             | OFuel => (OFuel, g3)
-            | OPanic v =>    (* panicking2 stays true; deferred popDefer runs; Go goes on unwinding *)
-                go fuel' P fx (TDefers fs ds' pk1 true (Some v)) (upd_run (pop_defer saved_dof saved_isdefer) g3)
+            | OPanic v =>    (* panicking2 stays true; Go goes on unwinding *)
+                go fuel' P fx (TDefers fs ds' pk1 true (Some v)) g4
             | ONormal =>
                 if pk1 then
                   match panic_fun (rn g3) with
                   | Some _ =>    (* maybeRepanic: panic(run.Panic) *)
-                      go fuel' P fx (TDefers fs ds' true false (Some (match panicv (rn g3) with Some v => v | None => 0 end)))
-                         (upd_run (pop_defer saved_dof saved_isdefer) g3)
+                      go fuel' P fx (TDefers fs ds' true false (Some (match panicv (rn g3) with Some v => v | None => 0 end))) g4
                   | None =>      (* recover() was called: no longer panicking *)
-                      go fuel' P fx (TDefers fs ds' false false None) (upd_run (pop_defer saved_dof saved_isdefer) g3)
+                      go fuel' P fx (TDefers fs ds' false false None) g4
                   end
-                else go fuel' P fx (TDefers fs ds' false false None) (upd_run (pop_defer saved_dof saved_isdefer) g3)
+                else go fuel' P fx (TDefers fs ds' false false None) g4
             end
         end
     end
@@ -418,7 +459,7 @@ Definition glob0 (k : nat) (fl : fault) : glob := mkGlob 0 k fl 0 0 0 false 0 0 
 
 (* re-arm the hook for the next evaluation in the same interpreter *)
 Definition rearm (k : nat) (fl : fault) (g : glob) : glob :=
-  mkGlob 0 k fl 0 0 0 false (gx g) (gincs g) (next_env g) (recs g) (rn g).
+  mkGlob 0 k fl 0 0 0 false (gx g) (gincs g) (next_env g) 0 (rn g).
 
 (* ====================================================================================== *)
 (* Part 3: correspondence cases of the C13 harness                                         *)
